@@ -104,12 +104,13 @@ TLC_STATS = re.compile(r"(\d+) states generated, (\d+) distinct states found, (\
 
 
 def tlc_cached(name, module, cfg, workers=12, timeout=3600, simulate=None, tlc_seed=None, keep=("REPLAY",),
-               javaopts=None, extra_env=None):
+               javaopts=None, extra_env=None, extra_args=None, extra_files=None):
     """Runs TLC on spec/<module>.tla with spec/<cfg> and caches its stdout (gz) keyed by the
-    content of every spec file + cfg + mode.  Returns (path, stats)."""
+    content of every spec file + cfg + mode (+ the content of extra input files).  Returns (path, stats)."""
     cfgp = os.path.join(SPEC, cfg)
-    h = spec_digest(module, [cfgp])
-    h.update(repr((module, simulate, tlc_seed, sorted((extra_env or {}).items()))).encode())
+    h = spec_digest(module, [cfgp] + list(extra_files or []))
+    h.update(repr((module, simulate, tlc_seed, extra_args,
+                   sorted((k, v) for k, v in (extra_env or {}).items() if k != "DOCS_FILE"))).encode())
     key = h.hexdigest()[:24]
     d = os.path.join(CACHE, f"{name}-{key}")
     outp = os.path.join(d, "out.txt.gz")
@@ -125,6 +126,7 @@ def tlc_cached(name, module, cfg, workers=12, timeout=3600, simulate=None, tlc_s
         cmd += ["-simulate", simulate]
     if tlc_seed is not None:
         cmd += ["-seed", str(tlc_seed)]
+    cmd += list(extra_args or [])
     cmd += [module + ".tla"]
     env = dict(ENV)
     if javaopts:
@@ -276,6 +278,11 @@ class Report:
         self.known = load_known()
 
     def add_findings(self, findings, engine):
+        # every raw finding of the run is kept under out/ for inspection (bin/summarize_findings.py)
+        os.makedirs(OUT, exist_ok=True)
+        with open(os.path.join(OUT, f"findings-{self.prop}.ndjson"), "a" if self.violations or self.known_hits else "w") as fh:
+            for f in findings:
+                fh.write(json.dumps(dict(f, engine=engine)) + "\n")
         for f in findings:
             f = dict(f)
             f["engine"] = engine
